@@ -5,8 +5,8 @@
 (* describing functions, is compared with the reference semantics Eval of  *)
 (* Dataflow.tla.  Input (IOEnv.CASE_FILE):                                 *)
 (*   {"progs": [P, ...], "obs": [{p, given, raised, errclass, val, exec,   *)
-(*                                dup, async, built, twice, conc, loop,    *)
-(*                                pre}]}                                   *)
+(*                                dup, async, built, twice, constret, conc,*)
+(*                                loop, pre}]}                             *)
 (* One state per observation.                                              *)
 (***************************************************************************)
 EXTENDS Dataflow, TLC, Json, IOUtils
@@ -31,16 +31,30 @@ HasFlag(P) == \/ \E j \in 1..Len(P.sites) : P.sites[j].active.c # "none"
 Clauses(S) == {p[2] : p \in {q \in S : q[1]}}
 Count(reg, cond) == IF cond THEN TLCSet(reg, TLCGet(reg) + 1) ELSE TRUE
 
+\* a nested DAG (at any depth) whose return contains a literal constant
+RECURSIVE SubReturnsConst(_)
+SubReturnsConst(P) == \E q \in 1..Len(P.subs) :
+                         \/ \E x \in 1..Len(P.subs[q].ret.refs) : P.subs[q].ret.refs[x].c = "const"
+                         \/ SubReturnsConst(P.subs[q])
+
 Bad(W) ==
   LET P == Progs[W.p]
       exp == Eval(P, W.given)
       inEq == ~exp.err              \* inside the equivalence (the plain body does not raise)
-      wrongVal == W.raised \/ W.val # exp.val
+      \* known finding: a deactivated nested DAG shows a setup result that it returns directly instead of None
+      keptSetup == ~W.raised /\ W.val # exp.val /\ W.val = exp.valK
+      \* known finding: an output of a deactivated nested DAG that is an indexed / unpacked part of an inner result is
+      \* computed by indexing the None of the deactivated inner node, and the call raises
+      idxNone == W.raised /\ exp.errI /\ W.errclass \in {"AttributeError", "TypeError"}
+      wrongVal == (W.raised \/ W.val # exp.val) /\ ~keptSetup /\ ~idxNone
       \* setup call sites computed by an earlier call on the same DAG object (W.pre) are not executed again
       wrongExec == ~W.raised /\ RangeOf(W.exec) # exp.exec \ RangeOf(W.pre)
+      \* known finding: the outer DAG can not be built when a nested DAG returns a literal constant
+      literalRet == ~W.built /\ W.constret /\ SubReturnsConst(P)
   IN Clauses({
-       <<~W.built /\ ~W.twice, "C01.build-error">>,
-       <<~W.built /\ HasSub(P), "C20.build-error">>,
+       <<~W.built /\ ~W.twice /\ ~literalRet, "C01.build-error">>,
+       <<~W.built /\ HasSub(P) /\ ~literalRet, "C20.build-error">>,
+       <<literalRet, "C20.build-error-literal-return">>,
        \* a missing / surplus argument must make the call raise (TawaziArgumentException / TypeError are the
        \* documented classes; another node of the same program may legitimately fail first, so only the
        \* raise itself is demanded)
@@ -48,6 +62,8 @@ Bad(W) ==
        <<W.built /\ inEq /\ wrongVal, "C01.value">>,
        <<W.built /\ inEq /\ wrongVal /\ HasSub(P), "C20.value">>,
        <<W.built /\ inEq /\ wrongVal /\ HasFlag(P), "C10.value">>,
+       <<W.built /\ inEq /\ keptSetup, "C10.deactivated-setup-output">>,
+       <<W.built /\ inEq /\ idxNone, "C10.deactivated-indexed-output">>,
        <<W.built /\ inEq /\ wrongVal /\ W.async, "C17.value">>,
        <<W.built /\ inEq /\ wrongExec /\ HasFlag(P), "C10.exec">>,
        <<W.built /\ inEq /\ wrongExec /\ ~HasFlag(P), "C03.exec">>,
@@ -58,6 +74,9 @@ Bad(W) ==
        \* conc = 2: one of several awaits of one AsyncDAG gathered in one event loop (C17)
        <<W.built /\ inEq /\ (wrongVal \/ wrongExec) /\ W.conc = 1, "C16.concurrent-calls">>,
        <<W.built /\ inEq /\ (wrongVal \/ wrongExec) /\ W.conc = 2, "C17.gathered-awaits">>,
+       \* conc = 3: the coroutines of several calls of one AsyncDAG were all created before the first was awaited; awaited
+       \* one after the other they are calls made one after the other (setup results of an earlier one are in W.pre)
+       <<W.built /\ inEq /\ (wrongVal \/ wrongExec) /\ W.conc = 3, "C17.created-then-awaited">>,
        \* loop = 2: a sibling coroutine was not served while async-thread nodes were running
        <<W.loop = 2, "C17.loop-blocked">>})
 
@@ -76,10 +95,16 @@ Check ==
      /\ Count(7, ~exp.err /\ W.conc = 1)
      /\ Count(8, ~exp.err /\ W.conc = 2)
      /\ Count(9, W.loop = 1)
+     /\ Count(10, ~exp.err /\ W.conc = 3)
+     /\ Count(11, ~exp.err /\ \E q \in exp.exec : Len(q) > 1 /\ LET RECURSIVE IsSetupPath(_, _)
+                                                                    IsSetupPath(Q, pth) == IF Len(pth) = 1 THEN Q.sites[pth[1]].setup
+                                                                                           ELSE IsSetupPath(Q.subs[Q.sites[pth[1]].sub], Tail(pth))
+                                                                IN IsSetupPath(P, q))
      /\ (b = {} \/ PrintT("MISMATCH " \o ToJson([o |-> o, c |-> b, expval |-> exp.val, expexec |-> exp.exec])))
 
-ASSUME \A reg \in 1..9 : TLCSet(reg, 0)
+ASSUME \A reg \in 1..11 : TLCSet(reg, 0)
 Counts == PrintT("COUNTS " \o ToJson([rows |-> TLCGet(1), ineq |-> TLCGet(2), nested |-> TLCGet(3),
                                        flagged |-> TLCGet(4), async |-> TLCGet(5), argerr |-> TLCGet(6),
-                                       threads |-> TLCGet(7), gathered |-> TLCGet(8), loopserved |-> TLCGet(9)]))
+                                       threads |-> TLCGet(7), gathered |-> TLCGet(8), loopserved |-> TLCGet(9),
+                                       inturn |-> TLCGet(10), nestedsetup |-> TLCGet(11)]))
 =============================================================================
